@@ -24,7 +24,7 @@ def _events(j, o):
     return [{"a": "Tables", "tables": o["tables"]}]
 
 
-TYPED_CELL = {"n": ["n", 7], "nf": ["n", 1.5], "b": ["b", 1], "d": ["d", "2024-01-02T03:04:05"],
+TYPED_CELL = {"n": ["n", 7], "nf": ["n", 1.5], "z": ["n", 0], "b": ["b", 1], "bf": ["b", 0], "d": ["d", "2024-01-02T03:04:05"],
               "date": ["date", "2024-01-02"], "t": ["t", "03:04:05"], "e": ["e", "#DIV/0!"], "f": ["f", "A1+1", 2.5],
               "s": ["s", 9], "empty": None}
 
